@@ -3,6 +3,7 @@ package rules
 import (
 	"fmt"
 	"sort"
+	"strings"
 
 	"golang.org/x/tools/go/ssa"
 )
@@ -12,11 +13,11 @@ import (
 // AdjudicateNoLegalMoves *writes* the game result of the board it is asked about. Below the root that is
 // undone by the parent's take-back (R08-inverse: PopMove restores the result); at the root nothing is taken
 // back, so a search of a mated or stalemated position handed its caller's board back adjudicated (defect F35).
-// Decided per adjudication site in the family of every recursive search function and of every implementation
-// of the Search / QuietSearch interfaces: the result the board had
-// is read (Board.Result) in the same block before the adjudication with no board operation in between, and
-// every path from the adjudication to a return passes a call of the result setter (Board.Adjudicate) whose
-// argument is that value and nothing else.
+// Decided per search root - every recursive search function and every implementation of the Search /
+// QuietSearch interfaces - over the adjudication sites of its family (the root and the helpers of its package
+// it calls): the result the board had is read (Board.Result) in the same block before the adjudication with
+// no board operation in between, and every path from the adjudication to a return passes a call of the result
+// setter (Board.Adjudicate) whose argument is that value and nothing else.
 func c03Handback(c *Ctx, m *searchModel, rec []*ssa.Function) {
 	r := c.R
 	const rule = "R03-handback"
@@ -26,33 +27,33 @@ func c03Handback(c *Ctx, m *searchModel, rec []*ssa.Function) {
 		r.Undecided(rule, "anchor:board.Board.Result/Adjudicate", "", "", "result getter or setter not found")
 		return
 	}
-	seenFn := map[*ssa.Function]bool{}
-	var fns []*ssa.Function
+	var roots []*ssa.Function
+	isRoot := map[*ssa.Function]bool{}
 	for _, fn := range rec {
-		for _, f := range funcFamily(fn) {
-			if !seenFn[f] {
-				seenFn[f] = true
-				fns = append(fns, f)
-			}
+		if !isRoot[fn] {
+			isRoot[fn] = true
+			roots = append(roots, fn)
 		}
 	}
-	// ... and every other implementation of the search interfaces (a sibling that adjudicates at its root:
-	// the livechess adaptor), with the helpers of its package
 	for _, fn := range c.P.AllFuncs {
 		if fn.Blocks == nil || fn.Signature.Recv() == nil || !c.P.IsRepoFunc(fn) || fn.Synthetic != "" {
 			continue
 		}
 		rt := fn.Signature.Recv().Type()
 		if fn.Name() == "Search" && m.implements(rt, m.searchIface) || fn.Name() == "QuietSearch" && m.implements(rt, m.quietIface) {
-			for _, f := range funcFamily(fn) {
-				if !seenFn[f] {
-					seenFn[f] = true
-					fns = append(fns, f)
-				}
+			if !isRoot[fn] {
+				isRoot[fn] = true
+				roots = append(roots, fn)
 			}
 		}
 	}
-	sort.Slice(fns, func(i, j int) bool { return c.P.FuncName(fns[i]) < c.P.FuncName(fns[j]) })
+	sort.Slice(roots, func(i, j int) bool { return c.P.FuncName(roots[i]) < c.P.FuncName(roots[j]) })
+	inFamily := map[*ssa.Function]bool{}
+	for _, fn := range roots {
+		for _, f := range funcFamily(fn) {
+			inFamily[f] = true
+		}
+	}
 	boardOp := func(ins ssa.Instruction) bool {
 		call, ok := ins.(ssa.CallInstruction)
 		if !ok {
@@ -65,92 +66,106 @@ func c03Handback(c *Ctx, m *searchModel, rec []*ssa.Function) {
 		if f == getter {
 			return false
 		}
-		return f == m.push || f == m.pop || f == m.adjudicate || f == setter || seenFn[f] || m.children[f]
+		return f == m.push || f == m.pop || f == m.adjudicate || f == setter || inFamily[f] || m.children[f]
 	}
-	n := 0
-	for _, f := range fns {
-		for _, b := range f.Blocks {
-			for _, ins := range b.Instrs {
-				adj, ok := ins.(*ssa.Call)
-				if !ok || adj.Call.StaticCallee() != m.adjudicate {
-					continue
-				}
-				n++
-				cons := fmt.Sprintf("the no-legal-move verdict of %s is taken back before returning", c.P.FuncName(f))
-				// restoring calls that every path from the adjudication to a return passes
-				var restores []*ssa.Call
-				for _, b2 := range f.Blocks {
-					for _, i2 := range b2.Instrs {
-						if rc, ok := i2.(*ssa.Call); ok && rc.Call.StaticCallee() == setter && instrDominates(adj, rc) {
-							restores = append(restores, rc)
-						}
+	nRoots, nSites := 0, 0
+	for _, root := range roots {
+		var problems []string
+		sites, where := 0, ""
+		for _, f := range funcFamily(root) {
+			if f != root && isRoot[f] {
+				continue // decided as a root of its own
+			}
+			for _, b := range f.Blocks {
+				for _, ins := range b.Instrs {
+					adj, ok := ins.(*ssa.Call)
+					if !ok || adj.Call.StaticCallee() != m.adjudicate {
+						continue
+					}
+					sites++
+					if where == "" {
+						where = c.pos(adj.Pos())
+					}
+					if p := handbackProblem(c, f, adj, getter, setter, boardOp); p != "" {
+						problems = append(problems, c.pos(adj.Pos())+": "+p)
 					}
 				}
-				bad := ""
-				var rst *ssa.Call
-				for _, rc := range restores {
-					if rc.Block() == adj.Block() {
-						rst = rc
-						break
-					}
-					// must pass through: no return reachable from the adjudication's successors without rc's block
-					esc := false
-					for _, s := range adj.Block().Succs {
-						for rb := range reachableFrom(s, map[*ssa.BasicBlock]bool{rc.Block(): true}) {
-							if _, isRet := rb.Instrs[len(rb.Instrs)-1].(*ssa.Return); isRet {
-								esc = true
-							}
-						}
-					}
-					if !esc {
-						rst = rc
-						break
-					}
-				}
-				if rst == nil {
-					r.Fail(rule, cons, c.pos(adj.Pos()), "", "AdjudicateNoLegalMoves writes the result of the board it is given and no call of the result setter follows on every path to the return: at the root no take-back follows either, so a search of a checkmated or stalemated position hands the caller's board back adjudicated (Result() changes from undecided to Checkmate/Stalemate)")
-					continue
-				}
-				// what is restored: only the result read before the adjudication
-				if len(rst.Call.Args) < 2 {
-					bad = "result setter without argument"
-				} else {
-					var defs []ssa.Value
-					resolveDefs(rst.Call.Args[1], map[ssa.Value]bool{}, &defs)
-					for _, d := range defs {
-						rd, ok := d.(*ssa.Call)
-						if !ok || rd.Call.StaticCallee() != getter {
-							bad = "the result written back is " + pathExpr(d) + ", not the result the board had before the adjudication"
-							continue
-						}
-						if rd.Block() != adj.Block() || !instrDominates(rd, adj) {
-							bad = "the result written back is read at " + c.pos(rd.Pos()) + ", which is not in the block of the adjudication before it (after the adjudication it is the verdict itself)"
-							continue
-						}
-						between := false
-						for _, i3 := range adj.Block().Instrs {
-							if i3 == ssa.Instruction(rd) {
-								between = true
-								continue
-							}
-							if i3 == ssa.Instruction(adj) {
-								break
-							}
-							if between && boardOp(i3) {
-								bad = "a board operation at " + c.pos(i3.Pos()) + " lies between the read of the old result and the adjudication"
-							}
-						}
-					}
-					if len(defs) == 0 {
-						bad = "the result written back is not identified"
+			}
+		}
+		if sites == 0 {
+			continue
+		}
+		nRoots++
+		nSites += sites
+		r.Check(len(problems) == 0, rule, fmt.Sprintf("the no-legal-move verdict of %s is taken back before returning", c.P.FuncName(root)), where, "", strings.Join(problems, "; "))
+	}
+	if nRoots == 0 {
+		r.Pass(rule, "no search function adjudicates on the caller's board", "", "", "no call of AdjudicateNoLegalMoves in the search families")
+	}
+	r.Infof("%s: %d adjudication sites in the families of %d of %d search roots", rule, nSites, nRoots, len(roots))
+}
+
+func handbackProblem(c *Ctx, f *ssa.Function, adj *ssa.Call, getter, setter *ssa.Function, boardOp func(ssa.Instruction) bool) string {
+	// restoring calls that every path from the adjudication to a return passes
+	var rst *ssa.Call
+	for _, b2 := range f.Blocks {
+		for _, i2 := range b2.Instrs {
+			rc, ok := i2.(*ssa.Call)
+			if !ok || rc.Call.StaticCallee() != setter || !instrDominates(adj, rc) || rst != nil {
+				continue
+			}
+			if rc.Block() == adj.Block() {
+				rst = rc
+				continue
+			}
+			esc := false
+			for _, s := range adj.Block().Succs {
+				for rb := range reachableFrom(s, map[*ssa.BasicBlock]bool{rc.Block(): true}) {
+					if _, isRet := rb.Instrs[len(rb.Instrs)-1].(*ssa.Return); isRet {
+						esc = true
 					}
 				}
-				r.Check(bad == "", rule, cons, c.pos(adj.Pos()), "", bad)
+			}
+			if !esc {
+				rst = rc
 			}
 		}
 	}
-	if n == 0 {
-		r.Pass(rule, "no search function adjudicates on the caller's board", "", "", "no call of AdjudicateNoLegalMoves in the search families")
+	if rst == nil {
+		return "AdjudicateNoLegalMoves writes the result of the board it is given and no call of the result setter follows on every path to the return: at the root no take-back follows either, so a search of a checkmated or stalemated position hands the caller's board back adjudicated (Result() changes from undecided to Checkmate/Stalemate)"
 	}
-	r.Infof("%s: %d adjudication sites in %d functions of the search families", rule, n, len(fns))
+	if len(rst.Call.Args) < 2 {
+		return "result setter without argument"
+	}
+	var defs []ssa.Value
+	resolveDefs(rst.Call.Args[1], map[ssa.Value]bool{}, &defs)
+	if len(defs) == 0 {
+		return "the result written back is not identified"
+	}
+	bad := ""
+	for _, d := range defs {
+		rd, ok := d.(*ssa.Call)
+		if !ok || rd.Call.StaticCallee() != getter {
+			bad = "the result written back is " + pathExpr(d) + ", not the result the board had before the adjudication"
+			continue
+		}
+		if rd.Block() != adj.Block() || !instrDominates(rd, adj) {
+			bad = "the result written back is read at " + c.pos(rd.Pos()) + ", which is not in the block of the adjudication before it (after the adjudication it is the verdict itself)"
+			continue
+		}
+		between := false
+		for _, i3 := range adj.Block().Instrs {
+			if i3 == ssa.Instruction(rd) {
+				between = true
+				continue
+			}
+			if i3 == ssa.Instruction(adj) {
+				break
+			}
+			if between && boardOp(i3) {
+				bad = "a board operation at " + c.pos(i3.Pos()) + " lies between the read of the old result and the adjudication"
+			}
+		}
+	}
+	return bad
 }
